@@ -452,7 +452,7 @@ func cmdProve(args []string) {
 			continue
 		}
 		for _, fn := range fns {
-			results = append(results, eng.ProveFunction(fn))
+			results = append(results, eng.ProveFunctionViews(fn)...)
 		}
 		delete(want, c.Func)
 	}
@@ -460,7 +460,7 @@ func cmdProve(args []string) {
 	for n := range want {
 		for _, pp := range eng.pkgs {
 			for _, fn := range eng.instances(pp.PkgPath, n) {
-				results = append(results, eng.ProveFunction(fn))
+				results = append(results, eng.ProveFunctionViews(fn)...)
 			}
 		}
 	}
